@@ -224,6 +224,18 @@ def shrink(batch, payload, rec, target, max_replays=160, wall=45.0, timeout=60.0
     return best, best_rec, used
 
 
+def machinery_digest():
+    """digest of the simulator's own sources: a replay file is a function of (seed, choices, machinery, tree)"""
+    import hashlib
+    h = hashlib.sha256()
+    d = os.path.dirname(os.path.abspath(__file__))
+    for n in sorted(os.listdir(d)):
+        if n.endswith('.py'):
+            with open(os.path.join(d, n), 'rb') as f:
+                h.update(n.encode() + b'\0' + f.read())
+    return h.hexdigest()[:16]
+
+
 def write_replay(prop, engine_name, payload, choices, rec, target):
     os.makedirs(os.path.join(VERIF, 'replays'), exist_ok=True)
     path = os.path.join(VERIF, 'replays', f"{prop}-{payload['seed']}-{target['cls']}.json")
@@ -233,7 +245,7 @@ def write_replay(prop, engine_name, payload, choices, rec, target):
         'choices': choices, 'expected': {'cls': target['cls'], 'cause': target['cause']},
         'detail': (same_violation(rec, target) or target)['detail'],
         'digest': rec.get('digest'), 'config': rec.get('config'), 'events': rec.get('events'),
-        'trace_tail': rec.get('log'), 'repo_head': repo_head(),
+        'trace_tail': rec.get('log'), 'repo_head': repo_head(), 'repo_path': REPO, 'machinery_digest': machinery_digest(),
         'replay_cmd': f'./check replay replays/{os.path.basename(path)}',
     }
     with open(path, 'w') as f:
